@@ -4,3 +4,5 @@ import SedpackProofs.PoolThm
 import SedpackProofs.Pipe
 import SedpackProofs.TreeSession
 import SedpackProofs.TreeCheck
+import SedpackProofs.TreeInterleave
+import SedpackProofs.Crash
